@@ -429,10 +429,24 @@ func (c *Call) updateLocations(goroot, localgoroot string, localgomods, gopaths 
 			return true
 		}
 	}
-	// Check GOPATH.
-	// TODO(maruel): Sort for deterministic behavior?
-	for prefix, dest := range gopaths {
-		if p := prefix + "/src/"; strings.HasPrefix(c.RemoteSrcPath, p) {
+	// Check GOPATH. When several roots match, use the longest one so the result
+	// does not depend on the map iteration order.
+	found, gopath, isMod := false, "", false
+	for prefix := range gopaths {
+		if found && len(prefix) <= len(gopath) {
+			continue
+		}
+		if strings.HasPrefix(c.RemoteSrcPath, prefix+"/src/") {
+			found, gopath, isMod = true, prefix, false
+		} else if strings.HasPrefix(c.RemoteSrcPath, prefix+"/pkg/mod/") {
+			// For modules, the path has to be altered, as it contains the version.
+			found, gopath, isMod = true, prefix, true
+		}
+	}
+	if found {
+		dest := gopaths[gopath]
+		if !isMod {
+			p := gopath + "/src/"
 			c.RelSrcPath = c.RemoteSrcPath[len(p):]
 			c.LocalSrcPath = pathJoin(dest, "src", c.RelSrcPath)
 			if i := strings.LastIndexByte(c.RelSrcPath, '/'); i != -1 {
@@ -443,36 +457,42 @@ func (c *Call) updateLocations(goroot, localgoroot string, localgomods, gopaths 
 			}
 			return true
 		}
-		// For modules, the path has to be altered, as it contains the version.
-		if p := prefix + "/pkg/mod/"; strings.HasPrefix(c.RemoteSrcPath, p) {
-			c.RelSrcPath = c.RemoteSrcPath[len(p):]
-			c.LocalSrcPath = pathJoin(dest, "pkg/mod", c.RelSrcPath)
-			if i := strings.LastIndexByte(c.RelSrcPath, '/'); i != -1 {
-				c.ImportPath = c.RelSrcPath[:i]
-			}
-			if c.Location == LocationUnknown {
-				c.Location = GoPkg
-			}
-			return true
+		p := gopath + "/pkg/mod/"
+		c.RelSrcPath = c.RemoteSrcPath[len(p):]
+		c.LocalSrcPath = pathJoin(dest, "pkg/mod", c.RelSrcPath)
+		if i := strings.LastIndexByte(c.RelSrcPath, '/'); i != -1 {
+			c.ImportPath = c.RelSrcPath[:i]
 		}
+		if c.Location == LocationUnknown {
+			c.Location = GoPkg
+		}
+		return true
 	}
 	// Check Go modules.
 	// Go module path detection only works with stack traces created on the local
-	// file system.
-	for prefix, pkg := range localgomods {
-		if strings.HasPrefix(c.RemoteSrcPath, prefix+"/") {
-			c.RelSrcPath = c.RemoteSrcPath[len(prefix)+1:]
-			c.LocalSrcPath = c.RemoteSrcPath
-			if i := strings.LastIndexByte(c.RelSrcPath, '/'); i != -1 {
-				c.ImportPath = pkg + "/" + c.RelSrcPath[:i]
-			} else {
-				c.ImportPath = pkg
-			}
-			if c.Location == LocationUnknown {
-				c.Location = GoMod
-			}
-			return true
+	// file system. With nested modules, the innermost one wins.
+	found, gomod := false, ""
+	for prefix := range localgomods {
+		if found && len(prefix) <= len(gomod) {
+			continue
 		}
+		if strings.HasPrefix(c.RemoteSrcPath, prefix+"/") {
+			found, gomod = true, prefix
+		}
+	}
+	if found {
+		pkg := localgomods[gomod]
+		c.RelSrcPath = c.RemoteSrcPath[len(gomod)+1:]
+		c.LocalSrcPath = c.RemoteSrcPath
+		if i := strings.LastIndexByte(c.RelSrcPath, '/'); i != -1 {
+			c.ImportPath = pkg + "/" + c.RelSrcPath[:i]
+		} else {
+			c.ImportPath = pkg
+		}
+		if c.Location == LocationUnknown {
+			c.Location = GoMod
+		}
+		return true
 	}
 	// Maybe the path is just absolute and exists?
 	return false
